@@ -99,7 +99,11 @@ def stream_strings(ctx, ntables):
     for _ in range(ntables):
         df, pids, ap, bp, lt = gen_rare_table(R)
         strat = R.choice([SingleClustering, NoClustering, DefaultClustering])
-        syn = Synthesizer(df, pids=pids, anonymization_params=ap, bucketization_params=bp, clustering=strat()); out = syn.sample()
+        try:
+            syn = Synthesizer(df, pids=pids, anonymization_params=ap, bucketization_params=bp, clustering=strat()); out = syn.sample()
+        except ValueError as e:
+            if is_empty_cluster_error(e): continue      # C07's known finding F14, not a C01 matter
+            raise
         holders = {}
         for c in pids.columns:
             g = pd.DataFrame({"s": df["s"], "p": pids[c]}); g = g[g["p"] != 0]
